@@ -148,11 +148,36 @@ def utf8Go : Nat → Bytes → Bool
 
 def isUtf8 (s : Bytes) : Bool := utf8Go 0 s
 
-/-- `utf16Len` on bytes (the lexer's column unit since the repair of finding C04-K3): every byte that is not a
-    continuation byte starts a character, and the lead byte of a four-byte sequence (a character outside the
-    basic multilingual plane) counts twice.  (Used only on `isUtf8` strings.) -/
-def runeCount (bs : Bytes) : Nat :=
-  (bs.filter fun b => b &&& 0xC0 != 0x80).length + (bs.filter fun b => b >= 0xF0).length
+/-- `utf16Len` on bytes (the lexer's column unit since the repair of finding C04-K3), i.e. Go's `for _, r := range s`
+    with one unit per rune and two for a rune above U+FFFF.  Go decodes strictly: a lead byte must be followed by
+    continuation bytes in the ranges of the Unicode standard (no overlong forms, no surrogates, nothing above
+    U+10FFFF); any byte that does not start a well-formed sequence is ONE replacement rune and decoding resumes
+    at the next byte.  Fuel = the length of the input. -/
+def unitsAux : Nat → Bytes → Nat
+  | 0, _ => 0
+  | _ + 1, [] => 0
+  | f + 1, b :: r =>
+    let cont (c : UInt8) : Bool := c &&& 0xC0 == 0x80
+    if b < 0x80 then 1 + unitsAux f r
+    else if 0xC2 ≤ b && b ≤ 0xDF then
+      match r with
+      | c1 :: r1 => if cont c1 then 1 + unitsAux f r1 else 1 + unitsAux f r
+      | [] => 1
+    else if 0xE0 ≤ b && b ≤ 0xEF then
+      let lo : UInt8 := if b == 0xE0 then 0xA0 else 0x80
+      let hi : UInt8 := if b == 0xED then 0x9F else 0xBF
+      match r with
+      | c1 :: c2 :: r2 => if lo ≤ c1 && c1 ≤ hi && cont c2 then 1 + unitsAux f r2 else 1 + unitsAux f r
+      | _ => 1 + unitsAux f r
+    else if 0xF0 ≤ b && b ≤ 0xF4 then
+      let lo : UInt8 := if b == 0xF0 then 0x90 else 0x80
+      let hi : UInt8 := if b == 0xF4 then 0x8F else 0xBF
+      match r with
+      | c1 :: c2 :: c3 :: r3 => if lo ≤ c1 && c1 ≤ hi && cont c2 && cont c3 then 2 + unitsAux f r3 else 1 + unitsAux f r
+      | _ => 1 + unitsAux f r
+    else 1 + unitsAux f r
+
+def runeCount (bs : Bytes) : Nat := unitsAux bs.length bs
 
 /-- rune count of `ConvertStrToUtf8 s`: exact when `isUtf8 s` (identity), else looked up in the table
     measured by the harness from the real GBK decoder -/
